@@ -24,7 +24,7 @@ fn judge(cfg: &Cfg, r: &crate::run::RunResult) -> Option<(String, String)> {
 }
 
 /// (first opcode, repeated opcode, label): body = first, then `repeat` T-1 times
-const STRATEGIES: [(u8, u8, &str); 6] = [
+pub const STRATEGIES: [(u8, u8, &str); 6] = [
     (b'N', b'N', "always-NONE (T scalars, then the collapse tail)"),
     (b'N', 0x85, "always-TUPLE1 (nesting depth T)"),
     (b'(', b'(', "always-MARK (T marks, T TUPLEs in the tail, nesting depth T)"),
@@ -33,7 +33,7 @@ const STRATEGIES: [(u8, u8, &str); 6] = [
     (b'N', b'p', "NONE then always-PUT (memo of T entries)"),
 ];
 
-fn strategy_ops(p: u8, first: u8, rep: u8) -> Option<(u8, u8)> {
+pub fn strategy_ops(p: u8, first: u8, rep: u8) -> Option<(u8, u8)> {
     // substitute opcodes that do not exist in the protocol
     let rep = match (rep, p) {
         (0x85, 0 | 1) => b'l', // no TUPLE1 below protocol 2: MARK ... is not steady; use nothing
@@ -46,7 +46,7 @@ fn strategy_ops(p: u8, first: u8, rep: u8) -> Option<(u8, u8)> {
 }
 
 /// script prefix (first step) and the repeating unit for "first, then rep forever"
-fn steady(ex: &Explorer, first: u8, rep: u8) -> Result<(Vec<u8>, Vec<u8>), String> {
+pub fn steady(ex: &Explorer, first: u8, rep: u8) -> Result<(Vec<u8>, Vec<u8>), String> {
     let mk = |n: usize| -> Result<Vec<u8>, String> {
         let mut plan = vec![vec![first]];
         plan.extend(std::iter::repeat(vec![rep]).take(n));
